@@ -178,13 +178,19 @@ def validate(ctx, rels, invariants=None, label="relations"):
     """Returns {invariant: [rel, ...]} for violated ones."""
     if not rels:
         return {}
-    wd = tlc.workdir("rel")
-    tf = os.path.join(wd, "rels.json")
-    json.dump([{k: v for k, v in r.items() if k != "meta"} for r in rels], open(tf, "w"))
-    res, viol = tlc.trace_check("Trace_Rel", invariants or REL_INV, tf, timeout=3000)
-    ctx.add_tlc(res, "trace validation of %s (%d related run pairs)" % (label, len(rels)))
+    out = {}
+    chunk = 300          # (one TLC run per 300 pairs: a thorough sweep records thousands, and the JSON of one run stays small)
+    for k0 in range(0, len(rels), chunk):
+        part = rels[k0:k0 + chunk]
+        wd = tlc.workdir("rel")
+        tf = os.path.join(wd, "rels.json")
+        json.dump([{k: v for k, v in r.items() if k != "meta"} for r in part], open(tf, "w"))
+        res, viol = tlc.trace_check("Trace_Rel", invariants or REL_INV, tf, timeout=3000)
+        ctx.add_tlc(res, "trace validation of %s (%d related run pairs%s)" % (label, len(part), "" if len(rels) <= chunk else ", part %d" % (k0 // chunk + 1)))
+        for inv, idxs in viol.items():
+            out.setdefault(inv, []).extend(part[i] for i in idxs)
     ctx.traces += len(rels)
-    return {inv: [rels[i] for i in idxs] for inv, idxs in viol.items()}
+    return out
 
 
 def diff_summary(rel, limit=4):
